@@ -1160,6 +1160,38 @@ func (w *vfC15World) refresh(t *rapid.T, how string, block, allow, force bool) {
 	w.run(t, pl)
 }
 
+// failedRepoint asks, through POST /control/filtering/set_url, for another
+// source of a list; the download from that source fails, the request is
+// refused, and the list must be exactly what it was: file, count, rules in
+// force, and -- seen at the next refresh -- "content whose checksum is
+// unchanged is not rewritten".
+func (w *vfC15World) failedRepoint(t *rapid.T) {
+	l := rapid.SampledFrom(w.lists).Draw(t, "repoint_list")
+	var target string
+	kind := rapid.SampledFrom([]string{"404", "503", "local_missing", "outside_safe"}).Draw(t, "repoint_failure")
+	switch kind {
+	case "404":
+		target = w.srv.srv.URL + "/gone/" + strconv.Itoa(w.refreshs)
+	case "503":
+		target = fmt.Sprintf("%s/l/%d", w.srv.srv.URL, 9000+l.Idx)
+	case "local_missing":
+		target = filepath.Join(w.dir, "local", fmt.Sprintf("missing-%d.txt", l.Idx))
+	default:
+		target = filepath.Join(w.dir, "elsewhere.txt")
+	}
+	body, _ := json.Marshal(map[string]any{
+		"url": l.URL, "whitelist": l.Allow,
+		"data": map[string]any{"name": fmt.Sprintf("list %d", l.Idx), "url": target, "enabled": true},
+	})
+	code, resp := w.call(t, http.MethodPost, "/control/filtering/set_url", body)
+	if code == http.StatusOK {
+		t.Fatalf("set_url of list %d (%s) to the failing source %s was accepted: %s", l.ID, l.kind(), target, resp)
+	}
+	w.pending = vfC15NewPending(fmt.Sprintf("refused re-point of list %d to %s", l.ID, target))
+	l.Hist = append(l.Hist, "repoint=fail")
+	vfC15.Class("refresh:failed_repoint:" + l.kind())
+}
+
 func (w *vfC15World) restart(t vfC15TB) {
 	w.d.Close()
 	w.newFilter(t)
@@ -1242,8 +1274,9 @@ func TestVFC15Refresh(t *testing.T) {
 				sel := rapid.IntRange(1, 2).Draw(t, "groups")
 				w.refresh(t, "direct", sel != 2, sel != 1, false)
 			},
-			"restart": func(t *rapid.T) { w.restart(t) },
-			"":        func(t *rapid.T) { w.verify(t) },
+			"restart":        func(t *rapid.T) { w.restart(t) },
+			"failed_repoint": func(t *rapid.T) { w.failedRepoint(t) },
+			"":               func(t *rapid.T) { w.verify(t) },
 		})
 
 		// Coverage of the history.
